@@ -156,6 +156,34 @@ fn gen_f64(rng: &mut Rng) -> f64 {
     }
 }
 
+fn gen_f32(rng: &mut Rng) -> f32 {
+    match rng.below(5) {
+        0 => *rng.pick(&[0.0f32, -0.0, 1.0, -1.5, f32::MAX, f32::MIN, f32::MIN_POSITIVE, -f32::MIN_POSITIVE, f32::EPSILON, 1.0e-40, -1.0e-40, 16777216.0, 16777217.0]),
+        // subnormals: the smallest, the largest, random ones
+        1 => f32::from_bits(*rng.pick(&[1u32, 2, 0x0040_0000, 0x007f_ffff, 0x8000_0001, 0x807f_ffff])),
+        2 => f32::from_bits(rng.next_u32() & 0x807f_ffff),
+        3 => (rng.range(-1_000_000, 1_000_000) as f32) / 64.0,
+        _ => loop {
+            let f = f32::from_bits(rng.next_u32());
+            if f.is_finite() {
+                break f;
+            }
+        },
+    }
+}
+
+fn f32_class(f: f32) -> &'static str {
+    if f == 0.0 {
+        "f32/zero"
+    } else if !f.is_finite() {
+        "f32/infinite"
+    } else if !f.is_normal() {
+        "f32/subnormal"
+    } else {
+        "f32/normal"
+    }
+}
+
 fn gen_i64(rng: &mut Rng) -> i64 {
     match rng.below(8) {
         0 => *rng.pick(&[0i64, 1, -1, 255, 256, i32::MAX as i64, i32::MAX as i64 + 1, i32::MIN as i64, i32::MIN as i64 - 1, 1 << 40, -(1 << 40), i64::MAX, i64::MIN, (1 << 53) + 1]),
@@ -238,6 +266,10 @@ pub fn run(ctx: &Ctx) {
         }
         rt(ctx, "f64", &gen_f64(&mut rng));
         rt(ctx, "f32", &(gen_f64(&mut rng) as f32));
+        let f = gen_f32(&mut rng);
+        rt(ctx, f32_class(f), &f);
+        let vf: Vec<f32> = (0..rng.below(4)).map(|_| gen_f32(&mut rng)).collect();
+        rt(ctx, "Vec<f32>", &vf);
         rt(ctx, "bool", &rng.bool());
         let c = gen_char(&mut rng);
         rt(ctx, if (c as u32) > 0xffff { "char/non-bmp" } else if c.is_ascii() { "char/ascii" } else { "char/bmp" }, &c);
